@@ -2,13 +2,16 @@
 * Unless explicitly stated otherwise all files in this repository are licensed under the Apache-2.0 License.
 * This product includes software developed at Datadog (https://www.datadoghq.com/). Copyright 2022 Datadog, Inc.
 **/
-use swc_common::Spanned;
+use swc_common::{Span, Spanned};
 use swc_ecma_ast::*;
 use swc_ecma_visit::VisitMutWith;
 
 use crate::{
     transform::assign_add_transform::AssignOp::Assign,
-    visitor::operation_transform_visitor::OperationTransformVisitor,
+    visitor::{
+        ident_provider::{IdentKind, IdentProvider},
+        operation_transform_visitor::OperationTransformVisitor,
+    },
 };
 
 use super::{binary_add_transform::BinaryAddTransform, transform_status::TransformResult};
@@ -39,10 +42,13 @@ impl AssignAddTransform {
                     assign.right.clone()
                 };
 
+                // `o().p += s` must evaluate `o()` once: (t = o()).p = hook(t.p + s, ..)
+                let (target, operand) = split_member_target(left_expr, &span, opv.ident_provider);
+
                 let binary = Expr::Bin(BinExpr {
                     span,
                     op: BinaryOp::Add,
-                    left: left_expr.clone().into(),
+                    left: operand,
                     right,
                 });
 
@@ -55,7 +61,7 @@ impl AssignAddTransform {
                     let new_assign = AssignExpr {
                         span,
                         op: Assign,
-                        left: assign.left.clone(),
+                        left: target,
                         right: Box::new(result.expr.unwrap()),
                     };
                     TransformResult::modified(new_assign)
@@ -65,4 +71,90 @@ impl AssignAddTransform {
             }
         }
     }
+}
+
+fn is_simple_target_part(expr: &Expr) -> bool {
+    expr.is_ident() || expr.is_this() || expr.is_lit()
+}
+
+// (t = expr) as it appears inside the assignment target, and `t` as it is read back
+fn hoist_target_part(
+    expr: &Expr,
+    span: &Span,
+    ident_provider: &mut dyn IdentProvider,
+) -> (Box<Expr>, Box<Expr>) {
+    let mut assignations = Vec::new();
+    let ident = ident_provider.get_temporal_ident_used_in_assignation(
+        expr,
+        &mut assignations,
+        span,
+        IdentKind::Expr,
+    );
+    match (ident, assignations.pop()) {
+        (Some(ident), Some(assignation)) => (
+            Box::new(Expr::Paren(ParenExpr {
+                span: *span,
+                expr: Box::new(assignation),
+            })),
+            Box::new(Expr::Ident(ident)),
+        ),
+        _ => (Box::new(expr.clone()), Box::new(expr.clone())),
+    }
+}
+
+// Splits a member target whose object or computed key is not trivially repeatable into the target
+// to assign to, which evaluates them into temporaries, and the operand that reads the current value
+// through those temporaries. Any other target is used as it is on both sides.
+fn split_member_target(
+    left: &SimpleAssignTarget,
+    span: &Span,
+    ident_provider: &mut dyn IdentProvider,
+) -> (AssignTarget, Box<Expr>) {
+    if let SimpleAssignTarget::Member(member) = left {
+        let key_is_simple = match &member.prop {
+            MemberProp::Computed(computed) => is_simple_target_part(&computed.expr),
+            _ => true,
+        };
+        if !is_simple_target_part(&member.obj) || !key_is_simple {
+            // an identifier can be rebound while the key is evaluated: it is only read again as it is
+            // when nothing runs in between
+            let obj_is_repeatable =
+                is_simple_target_part(&member.obj) && (key_is_simple || !member.obj.is_ident());
+            let (target_obj, operand_obj) = if obj_is_repeatable {
+                (member.obj.clone(), member.obj.clone())
+            } else {
+                hoist_target_part(&member.obj, span, ident_provider)
+            };
+            let (target_prop, operand_prop) = match &member.prop {
+                MemberProp::Computed(computed) if !is_simple_target_part(&computed.expr) => {
+                    let (target_key, operand_key) =
+                        hoist_target_part(&computed.expr, span, ident_provider);
+                    (
+                        MemberProp::Computed(ComputedPropName {
+                            span: computed.span,
+                            expr: target_key,
+                        }),
+                        MemberProp::Computed(ComputedPropName {
+                            span: computed.span,
+                            expr: operand_key,
+                        }),
+                    )
+                }
+                prop => (prop.clone(), prop.clone()),
+            };
+            return (
+                AssignTarget::Simple(SimpleAssignTarget::Member(MemberExpr {
+                    span: member.span,
+                    obj: target_obj,
+                    prop: target_prop,
+                })),
+                Box::new(Expr::Member(MemberExpr {
+                    span: member.span,
+                    obj: operand_obj,
+                    prop: operand_prop,
+                })),
+            );
+        }
+    }
+    (AssignTarget::Simple(left.clone()), left.clone().into())
 }
